@@ -119,6 +119,80 @@ def stack_case(draw, tier):
 
 
 # ----------------------------------------------------------------------------------------------
+# the same capacity, reached inside a worker of the multiprocessing solver (real processes): the caller must get an error
+# or exactly the reference result, never the results of the workers that happened to fit
+# ----------------------------------------------------------------------------------------------
+def mp_problem(case):
+    """n Booleans with sum == c (c = 1 with min-value, c = n-1 with max-value: n solutions at depth about n-1), plus one free
+    variable z in [0, w] that only multiplies the solutions and is what split() cuts."""
+    n, w = case["n"], case["w"]
+    doms = [[0, 1] for _ in range(n)] + [[0, w]]
+    pc = {"shr": doms, "idx": list(range(n + 1)), "off": [0] * (n + 1), "props": []}
+    c = 1 if case["cfg"]["dom"] == "min" else n - 1
+    pc["props"].append({"type": "affine_eq" if case["lin"] == "eq" else ("affine_leq" if c == 1 else "affine_geq"), "vars": list(range(n)), "params": [1] * n + [c]})
+    return pc
+
+
+def check_stack_mp(case):
+    from vlib import mpfake
+
+    pc, cfg, H = mp_problem(case), case["cfg"], case["height"]
+    n = case["n"]
+    tags = ["mp", "height:%d" % H, "k:%d" % case["k"], "op:" + case["op"], "need-vs-height:%s" % ("far-below" if n - 1 < H - 3 else "near" if n - 1 <= H + 3 else "beyond")]
+    nt = n - 1 >= H - 3
+    ample = 2 * n + 64
+    split_var = n if case["split"] == "z" else case["split_x"] % n
+    try:
+        ref_solver = engine(nx.make_solver, nx.build_problem(pc), cfg, ample)
+        if case["op"] == "enum":
+            ref = Counter(nx.vec(s) for s in engine(ref_solver.find_all))
+        else:
+            r = engine(ref_solver.minimize if case["op"] == "min" else ref_solver.maximize, case["obj"] % (n + 1))
+            ref = None if r is None else int(r[case["obj"] % (n + 1)])
+    except EngineError as e:
+        return Verdict(True, "", False, tags + ["reference-aborted:" + e.bucket])
+    where = "[%d Booleans with sum %s, z in [0,%d], split(%d, %s), %s/%s/%s, stack_max_height=%d for every worker, %s]" % (n, pc["props"][0]["type"] + " " + str(pc["props"][0]["params"][-1]), case["w"], case["k"], "z" if split_var == n else "x%d" % split_var, cfg["cons"], cfg["var"], cfg["dom"], H, case["op"])
+    try:
+        subs = engine(nx.build_problem(pc).split, case["k"], split_var)
+        solvers = [engine(nx.make_solver, sp, cfg, H) for sp in subs]
+        ms = mpfake.MultiprocessingSolver(solvers, log_level="CRITICAL")
+        if case["op"] == "enum":
+            got = Counter(nx.vec(s) for s in engine(lambda: list(ms.solve())))
+        else:
+            r = engine(ms.minimize if case["op"] == "min" else ms.maximize, case["obj"] % (n + 1))
+            got = None if r is None else int(r[case["obj"] % (n + 1)])
+    except EngineError as e:
+        tags.append("outcome:raised")
+        return Verdict(True, "", nt, tags)
+    tags.append("outcome:completed")
+    if got != ref:
+        if case["op"] == "enum":
+            return Verdict(False, "the multiprocessing solver returned %d solutions without raising; with an ample stack there are %d (%d missing, %d extra): a worker that ran out of stack was taken for a finished one %s" % (sum(got.values()), sum(ref.values()), sum((ref - got).values()), sum((got - ref).values()), where), nt, tags)
+        return Verdict(False, "the multiprocessing solver returned the value %s without raising; with an ample stack the optimum is %s %s" % (got, ref, where), nt, tags)
+    return Verdict(True, "", nt, tags)
+
+
+@st.composite
+def stack_mp_case(draw, tier):
+    H = draw(st.sampled_from([3, 4, 5, 6, 8, 9, 16, 17, 127, 128, 129]))
+    cfg = {"cons": draw(st.sampled_from(["bc", "bc", "shaving"])) if H < 100 else "bc", "var": "first", "dom": draw(st.sampled_from(["min", "max"]))}
+    n = max(2, H + draw(st.sampled_from([-2, -1, 0, 1, 2, 3, 4, 8])))
+    return {
+        "kind": "stack_mp",
+        "n": n,
+        "w": draw(st.integers(0, 2)),
+        "lin": draw(st.sampled_from(["eq", "eq", "ineq"])),
+        "height": H,
+        "cfg": cfg,
+        "k": draw(st.integers(1, 3)),
+        "split": draw(st.sampled_from(["z", "x"])),
+        "split_x": draw(st.integers(0, 200)),
+        "op": draw(st.sampled_from(["enum", "enum", "min", "max"])),
+        "obj": draw(st.integers(0, 300)),
+    }
+
+
+# ----------------------------------------------------------------------------------------------
 # sizes around the 8/16-bit limits of the index types
 # ----------------------------------------------------------------------------------------------
 def size_problem(what, n):
@@ -261,6 +335,8 @@ def deep_cases(tier):
 def check(case):
     if case["kind"] == "deep":
         return check_deep(case)
+    if case["kind"] == "stack_mp":
+        return check_stack_mp(case)
     return check_stack(case) if case["kind"] == "stack" else check_size(case)
 
 
@@ -269,11 +345,13 @@ META = {
     "rule": "cases = (a) stack sweep: stack_max_height in {1,2,3,4,8,16,127,128,129,255,256,257,300,512} x free/lightly constrained problems whose search depth is height-3..height+4 (Boolean, width-3, mixed domains; mid pushes two "
     "levels per choice) x heuristics x BC/shaving x number of solutions taken, compared with the same run on an ample stack; (b) size sweep around the 8/16-bit limits: total scope length, total parameter length and number of shared "
     "domains around 65536, algorithm index around 256, stack_max_height around 256 and 65536, on problems with an analytically known solution set; oracle = raises / refused, or exactly the reference result; "
+    "(c) the stack sweep inside workers of the multiprocessing solver (real processes over split(), enumeration / minimise / maximise): the call raises or returns exactly the result of one solver with an ample stack; "
     "non-trivial = needed depth >= height-3, or a size within 700 of a limit; distinct by SHA-1 of the canonical case",
     "assumptions": ["domain *values* beyond 32 bits are outside the documented contract and not generated"],
 }
 REPLAY_MODE = "J"
 EXAMPLES = {"quick": (250, 250), "thorough": (2500, 2500)}
+MP_EXAMPLES = {"quick": 25, "thorough": 300}
 
 
 def jobs(tier):
@@ -283,6 +361,8 @@ def jobs(tier):
         {"name": "size-J", "mode": "J", "shards": 2, "case_timeout": 600, "crash_is_verdict": True},
         {"name": "deep-J", "mode": "J", "shards": 2, "case_timeout": 600, "crash_is_verdict": True},
         {"name": "deep-I", "mode": "I", "shards": 4, "case_timeout": 900},
+        {"name": "mp-J", "mode": "J", "shards": 2, "case_timeout": 180},
+        {"name": "mp-I", "mode": "I", "shards": 2, "case_timeout": 180},
     ]
 
 
@@ -307,6 +387,9 @@ def run(job, shard, nshards, seed, tier):
                 rec.failures.append({"case": case, "msg": v.msg})
         if journal:
             open(journal, "w").write("{}")
+        return rec.result()
+    if job["name"] in ("mp-J", "mp-I"):
+        drive(stack_mp_case(tier), check, rec, shard_seed(seed, shard, 63 if job["mode"] == "J" else 64), MP_EXAMPLES[tier], shrink_budget_s=90)
         return rec.result()
     n = EXAMPLES[tier][0 if job["mode"] == "J" else 1]
     drive(stack_case(tier), check, rec, shard_seed(seed, shard, 61 if job["mode"] == "J" else 62), n, shrink_budget_s=90)
